@@ -381,11 +381,19 @@ where
     let mut frames_collector = QuicFramesCollector::<PacketReceived>::new();
     let mut packet_content = PacketContent::default();
     let frame_reader = FrameReader::new(packet.body(), packet.get_type());
+    let mut no_frames = true;
     for frame_result in frame_reader {
         let (frame, r#type) = frame_result.map_err(QuicError::from)?;
+        no_frames = false;
         frames_collector.extend([&frame]);
         packet_content += r#type;
         dispatch_frame(frame);
+    }
+    // An endpoint MUST treat receipt of a packet containing no frames as a connection error
+    // of type PROTOCOL_VIOLATION.
+    // See [Section 12.4](https://www.rfc-editor.org/rfc/rfc9000.html#section-12.4-3) of QUIC.
+    if no_frames {
+        return Err(QuicError::from(qbase::frame::error::Error::NoFrames).into());
     }
 
     packet.log_received(frames_collector);
